@@ -55,7 +55,8 @@ def quiet():
 class C07(core.Prop):
     pid = 'C07'
     lean_modules = ['TddaVerif.Props.C07']
-    theorems = []
+    theorems = ['TddaVerif.Props.C07.' + t for t in ['discover_total', 'type_is_column_type', 'nothing_for_absent', 'min_exact',
+        'max_exact', 'length_exact', 'sign_strongest', 'maxNulls_iff', 'noDuplicates_iff', 'allowedValues_iff', 'uniques_exact']]
     quick_n = 400
     thorough_n = 20000
     rule = ('cases: single columns of 0..26 rows for every recognised family (int8/int64/uint8/uint64/Int64/UInt8, '
@@ -90,7 +91,7 @@ class C07(core.Prop):
         return cx.to_df({'cols': [case['col']]})
 
     def _discover(self, case):
-        key = id(case)
+        key = json.dumps(case, sort_keys=True, default=str)
         if getattr(self, '_dk', None) == key:
             return self._dv
         df = self._df(case)
